@@ -280,6 +280,13 @@ def run(repo, rep):
     _sh, _st, _nw = _wrp(repo)
     rep.check(not (_sh or _st), 'C20.H8', 'dsutils:writers', repo.module('dsutils').relpath, '%d write sites: buffers fresh, or per-thread and '
               'emptied first' % _nw, '; '.join(_sh + _st))
+    rep.rule('C20.H9', 'a descriptor has one owner: no socket / file object is built on ``x.fileno()`` of an object that stays alive (both '
+             'would close the number, the second close hitting whichever association got it next); ownership moves with detach() or '
+             'the descriptor is duplicated', 1)
+    from ..api_pitfalls import descriptor_owner_problems as _dop
+    _dp, _dn = _dop(repo)
+    rep.check(not _dp, 'C20.H9', 'package:descriptor-owners', '', '%d object(s) built on a descriptor number, none on fileno() of a live object'
+              % _dn, '; '.join(_dp[:3]))
     _selfcheck()
     rep.assume('NOT DECIDED by this family: behaviour under concrete thread interleavings, independence of failures')
     rep.trust('CPython: threading.local gives per-thread attributes; dict/set single operations are atomic under the GIL; '
